@@ -8,6 +8,7 @@
 mod canon;
 mod tgen;
 mod rng;
+mod oracle;
 mod c01;
 mod c02;
 mod c03;
